@@ -1378,6 +1378,25 @@ class Engine:
             return V(self.pre.opt_val(v.ty, v.t), v.ty.inner)
         raise Unsupported(f"iteration over {v.ty}")
 
+    def enumerate_set(self, v: V, st: State) -> V:
+        """an arbitrary duplicate-free enumeration of a set value (fresh per evaluation: Python's iteration order is not a
+        function of the set's value)"""
+        assert isinstance(v.ty, SetTy)
+        k = self.site()
+        sq = self.fresh(f"enum{k}", SeqTy(v.ty.elem))
+        j, j2 = z3.Ints(f"j{k} jj{k}")
+        mem = self.pre.setf(v.ty, "mem")
+        self.assume(st, z3.ForAll([j], z3.Implies(z3.And(0 <= j, j < self.seq_len(sq)), mem(v.t, self.seq_idx(sq, j).t)),
+                                  patterns=[self.seq_idx(sq, j).t]))
+        self.assume(st, z3.ForAll([j, j2], z3.Implies(z3.And(0 <= j, j < j2, j2 < self.seq_len(sq)),
+                                                      self.seq_idx(sq, j).t != self.seq_idx(sq, j2).t),
+                                  patterns=[z3.MultiPattern(self.seq_idx(sq, j).t, self.seq_idx(sq, j2).t)]))
+        x = z3.Const(f"x{k}", self.sort(v.ty.elem))
+        pos = z3.Function(f"enumpos{k}", self.sort(v.ty.elem), z3.IntSort())
+        self.assume(st, z3.ForAll([x], z3.Implies(mem(v.t, x), z3.And(self.pre.seqf(sq.ty, "count")(sq.t, x) >= 1, 0 <= pos(x), pos(x) < self.seq_len(sq),
+                                                                       self.seq_idx(sq, pos(x)).t == x)), patterns=[mem(v.t, x)]))
+        return sq
+
     def quant(self, n: ast.GeneratorExp | ast.ListComp, st: State, universal: bool) -> Any:
         bvs: list[Any] = []
         guards: list[Any] = []
@@ -1401,7 +1420,7 @@ class Engine:
         if inner_raises and not self.mode_spec:
             raise Unsupported("possibly-raising expression inside all()/any()", n)
         g = z3.And(*guards) if guards else z3.BoolVal(True)
-        pats = self.index_patterns(bvs, [g, body])
+        pats = [p for p in self.index_patterns(bvs, [g, body]) if not self.contains_ite(p)]
         # terms that occur only under a nested quantifier would not reach the e-graph once the bound
         # variable is skolemised / instantiated: name them at this level through a predicate that is
         # axiomatically true (`touch`), which leaves the meaning unchanged
@@ -1514,7 +1533,9 @@ class Engine:
         k = self.site()
         coll = self.expr(gen.iter, st)
         if isinstance(coll.ty, SetTy):
-            raise Unsupported("list comprehension over a set", n)
+            if self.mode_spec or self.in_comprehension > 1:
+                raise Unsupported("list comprehension over a set in a clause / under a binder (the iteration order is not a function of the set)", n)
+            coll = self.enumerate_set(coll, st)   # some duplicate-free enumeration of the set: nothing is known about its order
         xs = self.as_seq(coll, st)
         xs_orig = xs
         gfn = self.closed_comprehension(n, gen, xs, st)
@@ -1701,6 +1722,19 @@ class Engine:
         self.trusted_used.add("comprehensions over closed element/filter expressions denote functions of the iterated sequence (pointwise map / order-preserving filter; f([])=[], f(a+b)=f(a)+f(b))")
         cache[tag] = fn_raw
         return lambda xt, _f=fn_raw, _p=pvals: _f(xt, *[p.t for p in _p])
+
+    def contains_ite(self, t: Any) -> bool:
+        seen = set()
+        stack = [t]
+        while stack:
+            e = stack.pop()
+            if e.get_id() in seen:
+                continue
+            seen.add(e.get_id())
+            if z3.is_app(e) and e.decl().kind() == z3.Z3_OP_ITE:
+                return True
+            stack.extend(e.children())
+        return False
 
     def mentions(self, t: Any, c: Any) -> bool:
         seen = set()
